@@ -128,11 +128,27 @@ class CompositeModel:
             y[:, self.bm] = f(y[:, self.bm], self.lo[self.bm], self.hi[self.bm], self.eps)
         return y
 
-    def fit(self, x):
+    def fit(self, x, z_observed=None):
+        """Fit the whitening.  Any non-degenerate per-dimension affine map is a
+        valid whitening (numpy uses the population std, torch the sample std),
+        so when the image ``z_observed`` of the fitting data is known the
+        affine is *identified* from the (y, z) pairs by least squares; the
+        caller checks that the identified map reproduces z_observed."""
         y = self.pre_affine_forward(x)
         if self.affine:
-            self.mean = y.mean(axis=0)
-            self.std = y.std(axis=0)
+            if z_observed is not None and len(y) >= 2:
+                z = np.asarray(z_observed, dtype=np.float64)
+                self.mean = np.empty(y.shape[1])
+                self.std = np.empty(y.shape[1])
+                for j in range(y.shape[1]):
+                    zc = z[:, j] - z[:, j].mean()
+                    den = float(np.dot(zc, zc))
+                    slope = float(np.dot(zc, y[:, j] - y[:, j].mean()) / den) if den > 0 else 1.0
+                    self.std[j] = slope
+                    self.mean[j] = y[:, j].mean() - slope * z[:, j].mean()
+            else:
+                self.mean = y.mean(axis=0)
+                self.std = y.std(axis=0)
             return (y - self.mean) / self.std
         return y
 
